@@ -275,7 +275,7 @@ fn binder_patterns() -> Vec<(&'static str, &'static str, &'static str, Vec<(&'st
         ("+Only(+S(n))", "n", "OneNat", vec![("+Only(+S(3))", true, "Integer(3)"), ("+Only(+Z())", false, "")]),
     ]
 }
-const BP_NESTINGS: [&str; 6] = ["alone", "last", "first", "named", "package", "alias"];
+const BP_NESTINGS: [&str; 8] = ["alone", "last", "first", "named", "package", "alias", "alias-of-tuple-last", "alias-of-tuple-first"];
 const BP_BINDERS: [&str; 9] = ["let", "do", "thunk-param", "inline-fn", "value-let", "value-fn", "comatch-arg", "fix-body-let", "def-param"];
 impl BinderPatterns {
     pub fn new(prop: &'static str) -> Self {
@@ -288,7 +288,7 @@ impl BinderPatterns {
             for n in 0..BP_NESTINGS.len() {
                 // constructor members of an alias pattern are rejected by design (docs/proposals/
                 // field-projection.md: "constructor payloads are deferred"): no acceptance claim
-                if prop == "C03" && BP_NESTINGS[n] == "alias" {
+                if prop == "C03" && BP_NESTINGS[n].starts_with("alias") {
                     continue;
                 }
                 for b in 0..BP_BINDERS.len() {
@@ -311,7 +311,9 @@ impl BinderPatterns {
             | "first" => (format!("({pat}, k)"), format!("({val}, 1)"), format!("{ty} * Int64")),
             | "named" => (format!("(l = {pat})"), format!("(l = {val})"), format!("(l :: {ty})")),
             | "package" => (format!("(W, {pat})"), format!("((Int64, {val}) : exists (X : VType) . {ty})"), format!("exists (X : VType) . {ty}")),
-            | _ => (format!("({pat}; whole)"), val.clone(), ty.to_string()),
+            | "alias" => (format!("({pat}; whole)"), val.clone(), ty.to_string()),
+            | "alias-of-tuple-last" => (format!("(whole; (k, {pat}))"), format!("(1, {val})"), format!("Int64 * {ty}")),
+            | _ => (format!("(({pat}, k); whole)"), format!("({val}, 1)"), format!("{ty} * Int64")),
         };
         let body = match BP_BINDERS[b] {
             | "let" => format!("let {npat} = {nval} in ret {res}"),
@@ -349,7 +351,7 @@ impl Check for BinderPatterns {
     }
     fn rule(&self) -> String {
         format!(
-            "{} programs = constructor patterns (over a one-constructor type: irrefutable; over a two-constructor type and nested under a one-constructor type: refutable) x 6 nestings (alone, last / first tuple component, under a named wrapper, as the payload of an existential package, as a member of an alias pattern) x 9 binder constructs (let, do, thunk parameter, inline function parameter, value-level let, pure value function parameter, comatch argument, let under fix, def parameter) x every constructor of the type as the run-time value; oracle for {}: {}; non-trivial = accepted programs",
+            "{} programs = constructor patterns (over a one-constructor type: irrefutable; over a two-constructor type and nested under a one-constructor type: refutable) x 8 nestings (alone, last / first tuple component, under a named wrapper, as the payload of an existential package, as a member of an alias pattern, as the last / first component of a tuple that is a member of an alias pattern) x 9 binder constructs (let, do, thunk parameter, inline function parameter, value-level let, pure value function parameter, comatch argument, let under fix, def parameter) x every constructor of the type as the run-time value; oracle for {}: {}; non-trivial = accepted programs",
             self.cases.len(),
             self.prop,
             if self.prop == "C01" { "an accepted program never stops in a failed pattern (or any other undefined state)" } else { "the irrefutable pattern over the one-constructor type is accepted in every binder and nesting that accepts a variable there, and returns the payload" }
@@ -523,6 +525,133 @@ impl Check for FixAnnotations {
                     if self.prop == "C01" {
                         r = r.violation(format!("accepted fix goes wrong (annotation `{}`): {}", FIX_ANNS[case.0].0, crate::front::short_msg(&p.msg)), format!("{class}\n{:?}\n{text}", run.end));
                     }
+                }
+            }
+        }
+        r
+    }
+}
+
+/* ------------------------------ a quantified type operator applied inside itself ------------------------------ */
+
+/// `let Cont (A : VType) = forall (R : CType) . Thk (A -> R) -> R` used as `Cont (Thk (Cont Int64))`:
+/// type-level substitution does not rename binders, so the same binder sits at two depths of the
+/// instantiated type. Comparing it with a hand-written expansion exercises binder bookkeeping under
+/// shadowing: equal to the expansion with distinct binder names and to the one that reuses one name,
+/// different from an expansion whose inner occurrences refer to the outer binder.
+pub struct OperatorNesting {
+    cases: Vec<(usize, usize, usize, bool)>,
+}
+const ON_OPERATORS: [&str; 3] = ["Cont", "Pack", "Poly"];
+const ON_EXPANSIONS: [&str; 4] = ["distinct binder names", "one binder name", "inner occurrences refer to the outer binder", "outer occurrences refer to a deeper binder name"];
+impl OperatorNesting {
+    pub fn new() -> Self {
+        let mut cases = vec![];
+        for op in 0..ON_OPERATORS.len() {
+            for depth in 1..=3usize {
+                for exp in 0..ON_EXPANSIONS.len() {
+                    if exp >= 2 && depth < 2 {
+                        continue;
+                    }
+                    for flip in [false, true] {
+                        cases.push((op, depth, exp, flip));
+                    }
+                }
+            }
+        }
+        OperatorNesting { cases }
+    }
+    /// the operator application nested `depth` times around Int64
+    fn applied(op: usize, depth: usize) -> String {
+        let name = ON_OPERATORS[op];
+        let mut t = "Int64".to_string();
+        for k in 0..depth {
+            t = match (op, k) {
+                | (0, 0) => format!("{name} {t}"),
+                | (0, _) => format!("{name} (Thk ({t}))"),
+                | (_, 0) => format!("{name} {t}"),
+                | _ => format!("{name} ({t})"),
+            };
+        }
+        t
+    }
+    /// the hand-written expansion; level 1 is the innermost application
+    fn expanded(op: usize, depth: usize, exp: usize) -> String {
+        let name_at = |level: usize| -> String {
+            match exp {
+                | 1 => "B".to_string(),
+                | _ => format!("B{level}"),
+            }
+        };
+        let mut t = "Int64".to_string();
+        for level in 1..=depth {
+            // which name the occurrences of this level's bound variable are written with
+            let binder = name_at(level);
+            let occ = match exp {
+                // the innermost level's occurrences are written with the next outer binder's name
+                | 2 if level == 1 && depth >= 2 => name_at(2),
+                // the outermost level's occurrences are written with the next inner binder's name (out of scope there)
+                | 3 if level == depth && depth >= 2 => name_at(depth - 1),
+                | _ => binder.clone(),
+            };
+            let arg = if op == 0 && level > 1 { format!("Thk ({t})") } else { t.clone() };
+            let arg_atom = if arg.contains(' ') { format!("({arg})") } else { arg.clone() };
+            t = match op {
+                | 0 => format!("forall ({binder} : CType) . Thk ({arg_atom} -> {occ}) -> {occ}"),
+                | 1 => format!("exists ({binder} : VType) . {occ} * Thk ({occ} -> Ret {arg_atom})"),
+                | _ => format!("forall ({binder} : VType) . {occ} -> {arg_atom}"),
+            };
+        }
+        t
+    }
+    fn text(case: &(usize, usize, usize, bool)) -> (String, bool) {
+        let (op, depth, exp, flip) = *case;
+        let a = Self::applied(op, depth);
+        let e = Self::expanded(op, depth, exp);
+        // Cont is computation-typed: compare under Thk
+        let (ta, te) = if op == 0 { (format!("Thk ({a})"), format!("Thk ({e})")) } else { (format!("({a})"), format!("({e})")) };
+        let (from, to) = if flip { (te, ta) } else { (ta, te) };
+        (
+            format!(
+                "begin\n  let VType = @(intrinsic(vtype)) that\n  let CType = @(intrinsic(ctype)) that\n  let Ret = @(intrinsic(ret)) that\n  let Thk = @(intrinsic(thk)) that\n  let Int64 = @(intrinsic(i64)) that\n  let Cont (A : VType) = forall (R : CType) . Thk (A -> R) -> R that\n  let Pack (A : VType) = exists (X : VType) . X * Thk (X -> Ret A) that\n  let Poly (A : VType) = forall (X : VType) . X -> A that\n  let f : Thk ({from} -> Ret Int64) = {{ fn (a : {from}) => let b : {to} = a in ret 0 }} in\n  ret 0\nend\n"
+            ),
+            exp < 2,
+        )
+    }
+}
+impl Check for OperatorNesting {
+    fn property(&self) -> &'static str {
+        "C03"
+    }
+    fn name(&self) -> String {
+        "c03-operator-nesting".into()
+    }
+    fn len(&self) -> usize {
+        self.cases.len()
+    }
+    fn describe(&self, i: usize) -> String {
+        let c = &self.cases[i];
+        format!("{} nested {} time(s) against its expansion with {}{}\n{}", ON_OPERATORS[c.0], c.1, ON_EXPANSIONS[c.2], if c.3 { " (expansion first)" } else { "" }, Self::text(c).0)
+    }
+    fn rule(&self) -> String {
+        format!("{} programs = 3 type operators whose body binds a variable (`Cont A = forall (R : CType) . Thk (A -> R) -> R`, `Pack A = exists X . X * Thk (X -> Ret A)`, `Poly A = forall X . X -> A`) applied 1..3 times inside themselves, compared in both directions (`fn (a : T) => let b : U = a in ..`) with hand-written expansions: distinct binder names, one name for every binder (legal shadowing), inner occurrences written with the outer binder's name, outer occurrences written with an inner binder's name; oracle: the first two are accepted (alpha-equivalent to the instantiated operator, whose binders coincide at all depths because substitution does not rename them), the last two are rejected; non-trivial = depth >= 2", self.cases.len())
+    }
+    fn run(&mut self, i: usize) -> CaseResult {
+        let scratch = Scratch::new("c03opn");
+        let case = self.cases[i];
+        let (text, equal) = Self::text(&case);
+        let path = scratch.write("main.zydeco", &text);
+        let mut r = CaseResult::ok("pair").key(i as u64).nontrivial(case.1 >= 2);
+        let class = format!("{} nested {} time(s), expansion with {}", ON_OPERATORS[case.0], case.1, ON_EXPANSIONS[case.2]);
+        match guarded(|| Subject::analyze(&path).verdict()) {
+            | Err(p) => r = r.violation(format!("type checker panics on a nested operator application: {}", crate::front::short_msg(&p.msg)), format!("{:?}\n{text}", p)),
+            | Ok(v) => {
+                // a name written out of its binder's scope is an unbound variable for the resolver: a rejection too
+                if !matches!(v, Verdict::Checked | Verdict::Rejected(_)) && !(case.2 == 3 && matches!(v, Verdict::Resolve(_))) {
+                    r = r.violation(format!("MACHINERY: operator-nesting program is not well formed ({})", v.tag()), format!("{class}\n{:?}\n{text}", v));
+                } else if v.accepted() != equal {
+                    let fp = if equal { format!("an operator applied inside itself is not equal to its expansion ({})", ON_EXPANSIONS[case.2]) } else { format!("an operator applied inside itself is accepted as equal to a wrong expansion ({})", ON_EXPANSIONS[case.2]) };
+                    r = r.violation(fp, format!("{class}\n{:?}\n{text}", v));
                 }
             }
         }
